@@ -20,7 +20,7 @@ PLAN = dict(
                 "benign re-encoding."),
     level_note=NOTE_BASE,
     runs=[
-        dict(name="flips", run="^(TestExhaustiveFlips|TestCorpus)$", shards=(3, 16), timeout=(300, 3600)),
+        dict(name="flips", run="^(TestExhaustiveFlips|TestFieldSweep|TestCorpus)$", shards=(3, 16), timeout=(300, 3600)),
         dict(name="tamper", run="^TestPropTamper$", checks=(2500, 200000), shards=(2, 16), timeout=(300, 3600)),
     ],
     require=[("tamper", "rejected-at-read"), ("tamper", "rejected-at-verify"), ("tamper", "accepted-benign"), ("tamper", "mut:fetcher"),
